@@ -12,10 +12,10 @@ structure Inv' (s : St) : Prop where
   tickRun : s.ticker = true ↔ s.status = .running
   asmShape : s.status = .starting ∨ s.status = .running →
     s.asmOps.length = s.w ∧ s.asmSrs.length = s.w ∧ s.asmOps.Nodup ∧ s.asmSrs.Nodup
-  startClean : s.status = .starting → s.store.pending = none
+  startClean : s.ser = true → s.status = .starting → s.store.pending = none
   pendId : ∀ p, s.store.pending = some p → p.id = s.store.counter ∧ ∀ c, s.store.current = some c → c < p.id
   curLe : ∀ c, s.store.current = some c → c ≤ s.store.counter
-  pendAsm : ∀ p, s.store.pending = some p → p.expOps = s.asmOps ∧ p.expSrs = s.asmSrs
+  pendAsm : s.ser = true → ∀ p, s.store.pending = some p → p.expOps = s.asmOps ∧ p.expSrs = s.asmSrs
   procAsm : s.status = .running → ∀ i ∈ s.asmOps, (s.procs i).deployed = true ∧ (s.procs i).srcs = s.asmSrs
   recSrc : ∀ i rid waiting, (s.procs i).inflight = some (rid, waiting) → ∀ x ∈ waiting, x ∈ (s.procs i).srcs
 
@@ -133,9 +133,9 @@ theorem spawn_inv {s : St} (h : Inv' s) (hs : s.status ≠ .running) : Inv (spaw
       refine ⟨by simp [List.length_take]; omega, by simp [List.length_take]; omega, ?_, ?_⟩
       · exact nodup_of_sorted (List.Pairwise.sublist (List.take_sublist _ _) h.sortedO)
       · exact nodup_of_sorted (List.Pairwise.sublist (List.take_sublist _ _) h.sortedS)
-    · intro _; rfl
+    · intro _ _; rfl
     · intro p hp; simp at hp
-    · intro p hp; simp at hp
+    · intro _ p hp; simp at hp
     · intro hr; simp at hr
     · intro hr; simp at hr
 
@@ -148,7 +148,7 @@ theorem evalStatus_inv {s : St} (h : Inv' s) : Inv (evalStatus s).1 := by
     · refine ⟨⟨h.regLiveO, h.regLiveS, h.sortedO, h.sortedS, ?_, ?_, ?_, h.pendId, h.curLe, h.pendAsm, ?_, h.recSrc⟩, ?_⟩
       · simp
       · intro hr; simp at hr
-      · intro hr; simp at hr
+      · intro _ hr; simp at hr
       · intro hr; simp at hr
       · intro hr; simp at hr
   · rename_i hst; exact ⟨h, fun hr => by rw [hst] at hr; cases hr⟩
@@ -200,12 +200,11 @@ theorem inv_ackStep {s : St} (h : Inv s) {st' : Store} (ha : AckStep s.store st'
   rcases ha with e | ⟨p, p', hp, h1, h2, h3, hc, hcur, hcase⟩
   · subst e; exact h
   · have hpid := h.pendId p hp
-    have hpa := h.pendAsm p hp
-    have hns : s.status ≠ .starting := by
-      intro hs; have := h.startClean hs; rw [this] at hp; cases hp
     refine ⟨⟨h.regLiveO, h.regLiveS, h.sortedO, h.sortedS, h.tickRun, h.asmShape, ?_, ?_, ?_, ?_, h.procAsm, h.recSrc⟩,
       h.runHealthy⟩
-    · intro hs; exact absurd hs hns
+    · intro hser hs
+      have := h.startClean hser hs
+      rw [this] at hp; cases hp
     · intro q hq
       rcases hcase with ⟨hq', _⟩ | ⟨hq', _⟩
       · have : q = p' := by simpa [hq'] using hq.symm
@@ -215,7 +214,8 @@ theorem inv_ackStep {s : St} (h : Inv s) {st' : Store} (ha : AckStep s.store st'
       · simp [hq'] at hq
     · intro c hcc
       simp only [hcur] at hcc; simp only [hc]; exact h.curLe c hcc
-    · intro q hq
+    · intro hser q hq
+      have hpa := h.pendAsm hser p hp
       rcases hcase with ⟨hq', _⟩ | ⟨hq', _⟩
       · have : q = p' := by simpa [hq'] using hq.symm
         subst this
@@ -334,7 +334,7 @@ theorem inv'_deployOk {s : St} (h : Inv' s) (hs : s.status = .starting) :
     Inv' { s with procs := deployProcs s none, status := .running, ticker := true } := by
   refine ⟨h.regLiveO, h.regLiveS, h.sortedO, h.sortedS, by simp, fun _ => h.asmShape (Or.inl hs), ?_, h.pendId,
     h.curLe, h.pendAsm, ?_, deployProcs_recSrc h none⟩
-  · intro hr; simp at hr
+  · intro _ hr; simp at hr
   · intro _ i hi
     have := deployProcs_mem s none i (by simpa using hi) (by simp)
     exact ⟨this.1, this.2.1⟩
@@ -344,7 +344,7 @@ theorem inv'_deployFail {s : St} (h : Inv' s) (skip : Option Nat) :
   refine ⟨h.regLiveO, h.regLiveS, h.sortedO, h.sortedS, by simp, ?_, ?_, h.pendId, h.curLe, h.pendAsm, ?_,
     deployProcs_recSrc h skip⟩
   · intro hr; simp at hr
-  · intro hr; simp at hr
+  · intro _ hr; simp at hr
   · intro hr; simp at hr
 
 theorem inv_tick {s : St} (h : Inv s) : Inv (step s .tick).1 := by
@@ -358,7 +358,7 @@ theorem inv_tick {s : St} (h : Inv s) : Inv (step s .tick).1 := by
     · rename_i hp
       refine ⟨⟨h.regLiveO, h.regLiveS, h.sortedO, h.sortedS, h.tickRun, h.asmShape, ?_, ?_, ?_, ?_, h.procAsm, h.recSrc⟩,
         h.runHealthy⟩
-      · intro hst; rw [hrun] at hst; cases hst
+      · intro _ hst; rw [hrun] at hst; cases hst
       · intro p hp'
         simp only [Option.some.injEq] at hp'
         subst hp'
@@ -371,7 +371,7 @@ theorem inv_tick {s : St} (h : Inv s) : Inv (step s .tick).1 := by
         have := h.curLe c hc
         show c ≤ s.store.counter + 1
         omega
-      · intro p hp'
+      · intro _ p hp'
         simp only [Option.some.injEq] at hp'
         subst hp'
         exact ⟨rfl, rfl⟩
@@ -389,18 +389,18 @@ theorem inv_savepoint {s : St} (h : Inv s) : Inv (step s .savepoint).1 := by
       · exact h
       · refine ⟨⟨h.regLiveO, h.regLiveS, h.sortedO, h.sortedS, h.tickRun, h.asmShape, ?_, ?_, h.curLe, ?_, h.procAsm,
           h.recSrc⟩, h.runHealthy⟩
-        · intro hs; rw [hrun] at hs; cases hs
+        · intro _ hs; rw [hrun] at hs; cases hs
         · intro q hq
           simp only [Option.some.injEq] at hq
           subst hq
           exact h.pendId p hp
-        · intro q hq
+        · intro hser q hq
           simp only [Option.some.injEq] at hq
           subst hq
-          exact h.pendAsm p hp
+          exact h.pendAsm hser p hp
     · refine ⟨⟨h.regLiveO, h.regLiveS, h.sortedO, h.sortedS, h.tickRun, h.asmShape, ?_, ?_, ?_, ?_, h.procAsm, h.recSrc⟩,
         h.runHealthy⟩
-      · intro hs; rw [hrun] at hs; cases hs
+      · intro _ hs; rw [hrun] at hs; cases hs
       · intro p hp'
         simp only [Option.some.injEq] at hp'
         subst hp'
@@ -413,7 +413,7 @@ theorem inv_savepoint {s : St} (h : Inv s) : Inv (step s .savepoint).1 := by
         have := h.curLe c hc
         show c ≤ s.store.counter + 1
         omega
-      · intro p hp'
+      · intro _ p hp'
         simp only [Option.some.injEq] at hp'
         subst hp'
         exact ⟨rfl, rfl⟩
@@ -485,6 +485,70 @@ theorem inv_flush {s : St} (h : Inv s) (i : Nat) : Inv (flushBatch s i).1 := by
   · exact h
   · exact inv_setProc i s.store _ h rfl rfl (fun rid w hh => h.recSrc i rid w hh)
 
+/-- the pieces of a ticker callback or savepoint request, run with tasks in between: everything of the invariant that
+does not speak about the pending snapshot's assembly survives (the ghost flag `ser` is cleared) -/
+theorem inv_pieces {s : St} (h : Inv s) (a : Act) (ha : a.serial = false) : Inv (step s a).1 := by
+  have key : ∀ (t : St), t.ser = false → t.w = s.w → t.ops = s.ops → t.srs = s.srs → t.live = s.live → t.status = s.status →
+      t.asmOps = s.asmOps → t.asmSrs = s.asmSrs → t.ticker = s.ticker → t.procs = s.procs →
+      (∀ p, t.store.pending = some p → p.id = t.store.counter ∧ ∀ c, t.store.current = some c → c < p.id) →
+      (∀ c, t.store.current = some c → c ≤ t.store.counter) → Inv t := by
+    intro t e0 ew e1 e2 e3 e4 e5 e6 e7 e8 hp hc
+    refine ⟨⟨by rw [e1, e3]; exact h.regLiveO, by rw [e2, e3]; exact h.regLiveS, by rw [e1]; exact h.sortedO,
+      by rw [e2]; exact h.sortedS, by rw [e7, e4]; exact h.tickRun, by rw [e4, e5, e6, ew]; exact h.asmShape, ?_, hp, hc, ?_,
+      by rw [e4, e5, e6, e8]; exact h.procAsm, by rw [e8]; exact h.recSrc⟩, ?_⟩
+    · intro hh; rw [e0] at hh; cases hh
+    · intro hh; rw [e0] at hh; cases hh
+    · intro hr
+      have := h.runHealthy (by rw [← e4]; exact hr)
+      unfold healthy at this ⊢
+      rw [e1, e2, e5, e6]; exact this
+  have hcur : ∀ c, s.store.current = some c → c ≤ s.store.counter + 1 := fun c hc => by have := h.curLe c hc; omega
+  cases a with
+  | tickA =>
+    simp only [step]
+    split
+    · exact h
+    · split
+      · exact h
+      · exact key _ rfl rfl rfl rfl rfl rfl rfl rfl rfl rfl h.pendId h.curLe
+  | spA =>
+    simp only [step]
+    split
+    · exact h
+    · split
+      · exact h
+      · exact key _ rfl rfl rfl rfl rfl rfl rfl rfl rfl rfl h.pendId h.curLe
+  | tickC =>
+    simp only [step]
+    split
+    · exact key _ rfl rfl rfl rfl rfl rfl rfl rfl rfl rfl h.pendId h.curLe
+    · exact h
+  | tickB =>
+    simp only [step]
+    split
+    · split
+      · rename_i p hp
+        split
+        · exact key _ rfl rfl rfl rfl rfl rfl rfl rfl rfl rfl h.pendId h.curLe
+        · split
+          · exact key _ rfl rfl rfl rfl rfl rfl rfl rfl rfl rfl h.pendId h.curLe
+          · refine key _ rfl rfl rfl rfl rfl rfl rfl rfl rfl rfl ?_ h.curLe
+            intro q hq
+            simp only [Option.some.injEq] at hq
+            subst hq
+            exact h.pendId p hp
+      · refine key _ rfl rfl rfl rfl rfl rfl rfl rfl rfl rfl ?_ hcur
+        intro q hq
+        simp only [Option.some.injEq] at hq
+        subst hq
+        refine ⟨rfl, ?_⟩
+        intro c hc
+        have := h.curLe c hc
+        show c < s.store.counter + 1
+        omega
+    · exact h
+  | _ => cases ha
+
 theorem step_inv {s : St} (h : Inv s) (a : Act) (hser : a.serial = true) : Inv (step s a).1 := by
   cases a with
   | tickA => cases hser
@@ -530,11 +594,11 @@ theorem run_inv {s : St} (h : Inv s) (as : List Act) (hser : ∀ a ∈ as, a.ser
     simp only [run]
     exact ih (step_inv h a (hser a (List.mem_cons_self ..))) (fun b hb => hser b (List.mem_cons_of_mem _ hb))
 
-theorem reachable_inv {s : St} (h : Reachable s) : Inv s := by
+theorem reachable_inv {s : St} (h : ReachableSerial s) : Inv s := by
   obtain ⟨w, d, c0, bmax, acts, hser, rfl⟩ := h
   exact run_inv (init_inv w d c0 bmax) acts hser
 
-theorem reachable_step {s : St} (h : Reachable s) (a : Act) (ha : a.serial = true) : Reachable (step s a).1 := by
+theorem reachable_step {s : St} (h : ReachableSerial s) (a : Act) (ha : a.serial = true) : ReachableSerial (step s a).1 := by
   obtain ⟨w, d, c0, bmax, acts, hser, rfl⟩ := h
   refine ⟨w, d, c0, bmax, acts ++ [a], ?_, ?_⟩
   · intro b hb
@@ -714,15 +778,16 @@ theorem evaluate_running_frame {s : St} (h : s.status = .running) :
   rw [evalStatus_running (s := purge s) h]
   split <;> exact ⟨rfl, rfl, rfl, rfl⟩
 
-theorem deployOk_clean {s : St} (h : Inv s) (hs : s.status = .starting) :
-    (step s .deployOk).1.store.pending = none ∧
+/-- what a successful deploy does, in every schedule: the store is untouched, every operator of the assembly is
+deployed with the assembly's runners and without an alignment record, its event batch is kept -/
+theorem deployOk_frame {s : St} (hs : s.status = .starting) :
+    (step s .deployOk).1.store = s.store ∧
     (∀ i ∈ (step s .deployOk).1.asmOps,
       ((step s .deployOk).1.procs i).inflight = none ∧ ((step s .deployOk).1.procs i).deployed = true ∧
       ((step s .deployOk).1.procs i).srcs = (step s .deployOk).1.asmSrs ∧
       ((step s .deployOk).1.procs i).batch = (s.procs i).batch) ∧
-    ∃ st, (step s .deployOk).2 = .started st s.startCk s.asmSrs false []
+    ∃ st, (step s .deployOk).2 = .started st s.startCk s.asmSrs s.store.pending.isSome []
       (s.asmOps.filter fun i => !(s.procs i).batch.isEmpty) := by
-  have hc := h.startClean hs
   let t : St := { s with procs := deployProcs s none, status := .running, ticker := true }
   have hstep : step s .deployOk = ((evaluate t).1, .started (evaluate t).1.status s.startCk s.asmSrs
       (evaluate t).1.store.pending.isSome
@@ -738,7 +803,7 @@ theorem deployOk_clean {s : St} (h : Inv s) (hs : s.status = .starting) :
   have hproc := fun i (hi : i ∈ s.asmOps) => deployProcs_mem s none i (by simpa using hi) (by simp)
   rw [hstep]
   simp only [e1', e2', e3', e4']
-  refine ⟨hc, ?_, ⟨(evaluate t).1.status, ?_⟩⟩
+  refine ⟨trivial, ?_, ⟨(evaluate t).1.status, ?_⟩⟩
   · intro i hi
     obtain ⟨a, b, c, d⟩ := hproc i hi
     exact ⟨c, a, b, d⟩
@@ -749,8 +814,20 @@ theorem deployOk_clean {s : St} (h : Inv s) (hs : s.status = .starting) :
         (s.asmOps.filter fun i => !(s.procs i).batch.isEmpty) := by
       apply List.filter_congr
       intro i hi; rw [(hproc i hi).2.2.2]
-    rw [hf, hb, hc]
-    rfl
+    rw [hf, hb]
+
+theorem deployOk_clean {s : St} (h : Inv s) (hser : s.ser = true) (hs : s.status = .starting) :
+    (step s .deployOk).1.store.pending = none ∧
+    (∀ i ∈ (step s .deployOk).1.asmOps,
+      ((step s .deployOk).1.procs i).inflight = none ∧ ((step s .deployOk).1.procs i).deployed = true ∧
+      ((step s .deployOk).1.procs i).srcs = (step s .deployOk).1.asmSrs ∧
+      ((step s .deployOk).1.procs i).batch = (s.procs i).batch) ∧
+    ∃ st, (step s .deployOk).2 = .started st s.startCk s.asmSrs false []
+      (s.asmOps.filter fun i => !(s.procs i).batch.isEmpty) := by
+  have hc := h.startClean hser hs
+  obtain ⟨a, b, st, c⟩ := deployOk_frame hs
+  refine ⟨by rw [a]; exact hc, b, st, ?_⟩
+  rw [c, hc]; rfl
 
 /-! ### the current checkpoint id only grows -/
 
@@ -1111,13 +1188,15 @@ theorem deployFail_status {s : St} (hs : s.status = .starting) (k : Nat) :
 
 /-! ### `.tick` = the ticker callback without interruption -/
 
-theorem tick_split (s : St) (h : s.tk = none) : (run s [.tickA, .tickB, .tickC]).1 = (step s .tick).1 := by
+theorem tick_split (s : St) (h : s.tk = none) :
+    { (run s [.tickA, .tickB, .tickC]).1 with ser := s.ser } = (step s .tick).1 := by
   cases ht : s.ticker
   · simp [run, step, ht, h]
+    cases s; simp_all
   · cases hp : s.store.pending with
     | some p =>
       simp only [run, step, ht, h, hp, Bool.not_true, Bool.false_eq_true, if_false, Option.isSome_none]
-      cases s; simp_all
+      try (cases s; simp_all)
     | none =>
       simp only [run, step, ht, h, hp, Bool.not_true, Bool.false_eq_true, if_false, Option.isSome_none]
       try (cases s; simp_all)
@@ -1267,6 +1346,43 @@ theorem writeOk_ackStep {s : St} (hi : Inv s) (h : WriteOk s) {st' : Store} (ha 
         have : st'.pending = some q := hqq
         rw [hq] at this; cases this
 
+theorem writeOk_pieces {s : St} (hi : Inv s) (h : WriteOk s) (a : Act) (ha : a.serial = false) :
+    WriteOk (step s a).1 := by
+  have same : ∀ t : St, t.store = s.store → WriteOk t := fun t e => by
+    intro n hn; rw [e] at hn; have := h n hn; rw [e]; exact this
+  cases a with
+  | tickA => simp only [step]; split; exact h; split; exact h; exact same _ rfl
+  | spA => simp only [step]; split; exact h; split; exact h; exact same _ rfl
+  | tickC => simp only [step]; split; exact same _ rfl; exact h
+  | tickB =>
+    simp only [step]
+    split
+    · split
+      · rename_i p hp
+        split
+        · exact same _ rfl
+        · split
+          · exact same _ rfl
+          · intro n hn
+            have hn' : n ∈ s.store.writing := hn
+            obtain ⟨a, b⟩ := h n hn'
+            refine ⟨a, ?_⟩
+            intro q hq
+            simp only [Option.some.injEq] at hq
+            subst hq
+            exact b p hp
+      · intro n hn
+        have hn' : n ∈ s.store.writing := hn
+        obtain ⟨a, _⟩ := h n hn'
+        refine ⟨by show n ≤ s.store.counter + 1; omega, ?_⟩
+        intro p hp
+        simp only [Option.some.injEq] at hp
+        subst hp
+        show n < s.store.counter + 1
+        omega
+    · exact h
+  | _ => cases ha
+
 theorem step_writeOk {s : St} (hi : Inv s) (h : WriteOk s) (a : Act) (hser : a.serial = true) :
     WriteOk (step s a).1 := by
   cases a with
@@ -1377,7 +1493,7 @@ theorem run_inv_writeOk {s : St} (hi : Inv s) (h : WriteOk s) (as : List Act) (h
     have ha := hser a (List.mem_cons_self ..)
     exact ih (step_inv hi a ha) (step_writeOk hi h a ha) (fun b hb => hser b (List.mem_cons_of_mem _ hb))
 
-theorem reachable_writeOk {s : St} (h : Reachable s) : WriteOk s := by
+theorem reachable_writeOk {s : St} (h : ReachableSerial s) : WriteOk s := by
   obtain ⟨w, d, c0, bmax, acts, hser, rfl⟩ := h
   exact (run_inv_writeOk (init_inv w d c0 bmax) (by intro n hn; simp [init] at hn) acts hser).2
 
@@ -1389,5 +1505,86 @@ theorem canPublish_of_writeOk {s : St} (h : WriteOk s) (n : Nat) (hn : n ∈ s.s
   cases hp : s.store.pending with
   | none => simp [hn, a]
   | some p => simp [hn, a, b p hp]
+
+/-! ### all schedules -/
+
+theorem step_inv_all {s : St} (h : Inv s) (a : Act) : Inv (step s a).1 := by
+  cases hs : a.serial
+  · exact inv_pieces h a hs
+  · exact step_inv h a hs
+
+theorem step_writeOk_all {s : St} (hi : Inv s) (h : WriteOk s) (a : Act) : WriteOk (step s a).1 := by
+  cases hs : a.serial
+  · exact writeOk_pieces hi h a hs
+  · exact step_writeOk hi h a hs
+
+theorem run_inv_all {s : St} (hi : Inv s) (h : WriteOk s) (as : List Act) : Inv (run s as).1 ∧ WriteOk (run s as).1 := by
+  induction as generalizing s with
+  | nil => exact ⟨hi, h⟩
+  | cons a as ih => simp only [run]; exact ih (step_inv_all hi a) (step_writeOk_all hi h a)
+
+theorem reachableAll_inv {s : St} (h : ReachableAll s) : Inv s ∧ WriteOk s := by
+  obtain ⟨w, d, c0, bmax, acts, rfl⟩ := h
+  exact run_inv_all (init_inv w d c0 bmax) (by intro n hn; simp [init] at hn) acts
+
+theorem reachableAll_of_serial {s : St} (h : ReachableSerial s) : ReachableAll s := by
+  obtain ⟨w, d, c0, bmax, acts, _, e⟩ := h
+  exact ⟨w, d, c0, bmax, acts, e⟩
+
+theorem evaluate_ser (s : St) : (evaluate s).1.ser = s.ser := by
+  unfold evaluate evalStatus
+  have hs : ∀ t : St, (spawn t).1.ser = t.ser := by intro t; unfold spawn; split <;> rfl
+  split
+  · split <;> rfl
+  · rfl
+  · exact hs _
+  · exact hs _
+
+/-- serial actions never clear the ghost flag -/
+theorem step_ser (s : St) (a : Act) (ha : a.serial = true) : (step s a).1.ser = s.ser := by
+  cases a with
+  | tickA => cases ha
+  | tickB => cases ha
+  | tickC => cases ha
+  | spA => cases ha
+  | regO i => exact evaluate_ser _
+  | regS i => exact evaluate_ser _
+  | deregO i => exact evaluate_ser _
+  | deregS i => exact evaluate_ser _
+  | adv n => rfl
+  | deployOk => simp only [step]; split; rfl; exact evaluate_ser _
+  | deployFail k => simp only [step]; split; rfl; exact evaluate_ser _
+  | tick =>
+    simp only [step]
+    repeat' split
+    all_goals rfl
+  | savepoint =>
+    simp only [step]
+    repeat' split
+    all_goals rfl
+  | ackS i id => rfl
+  | ackO i id => rfl
+  | bar i sr id =>
+    simp only [step]; unfold barrier register
+    repeat' split
+    all_goals rfl
+  | ev i sr tag =>
+    simp only [step]; unfold event
+    repeat' split
+    all_goals rfl
+  | flush i => simp only [step]; unfold flushBatch; split <;> rfl
+  | publish n => simp only [step]; split <;> rfl
+
+theorem reachableSerial_ser {s : St} (h : ReachableSerial s) : s.ser = true := by
+  obtain ⟨w, d, c0, bmax, acts, hser, rfl⟩ := h
+  have : ∀ (as : List Act) (t : St), (∀ a ∈ as, a.serial = true) → (run t as).1.ser = t.ser := by
+    intro as
+    induction as with
+    | nil => intro t _; rfl
+    | cons a as ih =>
+      intro t hh
+      simp only [run]
+      rw [ih _ (fun b hb => hh b (List.mem_cons_of_mem _ hb)), step_ser t a (hh a (List.mem_cons_self ..))]
+  rw [this acts _ hser]; rfl
 
 end Rxn.JobFsm
